@@ -125,6 +125,10 @@ Step(e) ==
     [] e.k = "end" ->
          [clk |-> clk, rel |-> rel, mem |-> mem, excl |-> excl,
           V |-> IF e.size > 0 THEN {<<"C05", "freed_once">>, <<"C03", "freed_once">>} ELSE {}]
+    \* an operation of a program (all of them are in contract) panicked: the handles "may be cloned,
+    \* sliced, read, converted and dropped concurrently" -- not in this interleaving
+    [] e.k = "op_panic" ->
+         [clk |-> clk, rel |-> rel, mem |-> mem, excl |-> excl, V |-> {<<"C05", "op_returns">>}]
     [] e.k \in {"redzone", "poison"} ->
          [clk |-> clk, rel |-> rel, mem |-> mem, excl |-> excl, V |-> {<<"C05", "no_uaf">>}]
     [] OTHER -> [clk |-> clk, rel |-> rel, mem |-> mem, excl |-> excl, V |-> {}]
